@@ -16,6 +16,15 @@ Commands of a case (session `cqe`; the catalog names are cfg lines):
   run <names> <src>         parsed.execute(optimize=False, names=names) on a small real catalog (field, keyword,
                             text indexes with documents)  ==  the MODEL's resolved tree rebuilt as constant query
                             objects and executed without names
+  rerun spy|real <opt> <r> <names>{r} <src>
+                            ONE parsed query object (parse_query with its default optimisation when opt=1, with
+                            optimize_query=False when opt=0) executed r = 2..3 times in a row with DIFFERENT names
+                            mappings, on spy indexes (every leaf's substituted constants) or on the real catalog (ids);
+                            each execution's answer == the model's substitution of THAT execution's names into the tree
+                            as it was before the first execution (c10_subst_pure), and the object renders the same
+                            afterwards (`unchanged`).  opt=0: the model parses the real AST itself; opt=1: the model gets
+                            the implementation's optimised tree as rendered before the first execution (the optimiser
+                            is C05's subject)
   qeq <obj> <obj>           hypatia's `==` / `!=` on two hand-built trees  ==  weq  ==  structEq
   subst <names> <obj>       Comparator._get_value observed through Eq(spy, value).execute(names=...)
 
@@ -46,6 +55,10 @@ Mutation sanity check (GUIDE step 7): 16 semantic mutations of hypatia/query/__i
 After fix D21 (range bounds through _get_value) the range-related ones were rerun (M1, M4, M10, M11, M15: caught) plus
   M17 fix D21 reverted for the end bound only                                              caught (regression witness)
   M18 start bound resolved from the end bound's value                                      caught (regression witness)
+Seeded change missed before `rerun` existed, now caught (witnesses + generated cases, e.g. `a == x or a == y` on the real
+catalog answers {1} | {1} instead of {1} | {4 5}, object CHANGED):
+  M19 _get_value resolves the Names of a list IN PLACE (value[i] = resolved; return value), so a retained query
+      object keeps the first execution's bindings                                          caught (rerun spy/real, opt 0/1)
 """
 import ast
 import io
@@ -68,6 +81,7 @@ THEOREMS = ["Hyp.Cqe." + t for t in (
     "c10_outside_language_rejected", "c10_outside_language_partial", "c10_d11_top_level", "c10_d11_not_value",
     "c10_d11_query_as_value", "c10_subst", "c10_subst_error_iff", "c10_leaf_resolution",
     "c10_constant_values_unchanged", "c10_range_subst", "c10_range_error_iff", "c10_d21_regression",
+    "c10_subst_pure",
     "c10_eq_is_structural",
     "c10_structEq_refl", "c10_eq_only_on_fragment", "c10_parsed_equals_hand_built", "c10_embeds_in_query_algebra")]
 CASES = {"quick": 8000, "thorough": 300000}
@@ -492,6 +506,8 @@ class Impl(object):
         self.spycat = Catalog()
         for name in CAT_NAMES:
             self.spycat[name] = Spy("s")
+        self.last_pre = {}
+        self.cur = 0
         self.names_of = {}
         for c in (self.cat, self.spycat):
             for name in CAT_NAMES:
@@ -702,6 +718,35 @@ class Impl(object):
                 return idset(parsed.execute(optimize=False, names=names).ids)
             except Exception as e:
                 return exc_name(e)
+        if op == "rerun":
+            spy, opt, r = toks[1] == "spy", toks[2] == "1", int(toks[3])
+            j = 4
+            rounds = []
+            for _ in range(r):
+                names, j = self.names(toks, j)
+                rounds.append(names)
+            cat = self.spycat if spy else self.cat
+            try:
+                parsed = Q.parse_query(unhx(toks[j]), cat) if opt else \
+                    Q.parse_query(unhx(toks[j]), cat, optimize_query=False)
+            except Exception as e:
+                return exc_name(e)
+            if not isinstance(parsed, Q.Query):
+                return "notquery"
+            pre = self.show(parsed)
+            self.last_pre[self.cur] = pre
+            outs = []
+            for names in rounds:
+                if spy:
+                    outs.append(" ; ".join(self.exec_leaf(l, names) if hasattr(l, "execute") else "err AttributeError"
+                                           for l in self.leaves(parsed)))
+                else:
+                    try:
+                        outs.append(idset(parsed.execute(optimize=False, names=names).ids))
+                    except Exception as e:
+                        outs.append(exc_name(e))
+            post = self.show(parsed)
+            return " | ".join(outs) + " || " + ("unchanged" if post == pre else "CHANGED " + post)
         if op == "qeq":
             a, j = self.build_w(toks, 1, self.cat)
             b, j = self.build_w(toks, j, self.cat)
@@ -737,7 +782,12 @@ def impl_for(hyp):
 
 def impl_run(hyp, case):
     im = impl_for(hyp)
-    return [im.run(c) for c in case["cmds"]]
+    im.last_pre = {}
+    out = []
+    for i, c in enumerate(case["cmds"]):
+        im.cur = i
+        out.append(im.run(c))
+    return out
 
 
 def model_cmd(c):
@@ -747,6 +797,13 @@ def model_cmd(c):
     if op == "parse":
         m, err = module_tokens(unhx(str(c[1])))
         return ["synerr", err] if m is None else ["parse"] + m
+    if op == "rerun":
+        if str(c[2]) == "1":
+            return ["cfg", "deferred"]          # answered in post_model from the optimised tree (see docstring)
+        m, err = module_tokens(unhx(str(c[-1])))
+        if m is None:
+            return ["synerr", err]
+        return ["rerun", c[1]] + list(c[3:-1]) + m
     if op in ("exec", "run"):
         m, err = module_tokens(unhx(str(c[-1])))
         if m is None:
@@ -755,21 +812,56 @@ def model_cmd(c):
     return c
 
 
+def _real_rounds(im, m):
+    """`ok <tree>` / `err X` per execution -> rebuilt as constant query objects on the real catalog and executed"""
+    body, sep, tail = m.partition(" || ")
+    outs = []
+    for part in body.split(" | "):
+        if part.startswith("ok "):
+            try:
+                q, j = im.build_w(part.split(" ")[1:], 0, im.cat)
+                part = idset(q.execute(optimize=False).ids)
+            except Exception as e:
+                part = exc_name(e)
+        outs.append(part)
+    return " | ".join(outs) + sep + tail
+
+
 def post_model(hyp, case, mouts, iouts):
-    """`run`: the model's resolved tree is rebuilt as constant query objects on the real catalog and executed"""
+    """`run` / `rerun real`: the model's resolved tree is rebuilt as constant query objects on the real catalog and
+    executed; `rerun` with opt=1: the model is asked now, with the optimised tree the implementation showed BEFORE
+    its first execution"""
+    from lib import core
     im = impl_for(hyp)
     out = list(mouts)
+    deferred = []
     for i, c in enumerate(case["cmds"]):
-        if c[0] != "run":
-            continue
-        m, sep, spec = mouts[i].partition(" ## ")
-        if m.startswith("ok "):
-            try:
-                q, j = im.build_w(m.split(" ")[1:], 0, im.cat)
-                m = idset(q.execute(optimize=False).ids)
-            except Exception as e:
-                m = exc_name(e)
-        out[i] = m + sep + spec
+        if c[0] == "rerun" and str(c[2]) == "1":
+            pre = im.last_pre.get(i)
+            if pre is None:           # the implementation did not get a query object: the model parses itself
+                m, err = module_tokens(unhx(str(c[-1])))
+                line = ["synerr", err] if m is None else ["rerun", c[1]] + list(c[3:-1]) + m
+            else:
+                line = ["reruntree", c[1]] + list(c[3:-1]) + pre.split(" ")
+            deferred.append((i, " ".join(map(str, line))))
+    if deferred:
+        head = ["session " + case["session"]] + [" ".join(map(str, x)) for x in case.get("cfg", [])]
+        res = core.run_model(head + [l for _, l in deferred])[len(head):]
+        for (i, _), r in zip(deferred, res):
+            out[i] = r
+    for i, c in enumerate(case["cmds"]):
+        if c[0] == "run":
+            m, sep, spec = out[i].partition(" ## ")
+            if m.startswith("ok "):
+                try:
+                    q, j = im.build_w(m.split(" ")[1:], 0, im.cat)
+                    m = idset(q.execute(optimize=False).ids)
+                except Exception as e:
+                    m = exc_name(e)
+            out[i] = m + sep + spec
+        elif c[0] == "rerun" and c[1] == "real":
+            m, sep, spec = out[i].partition(" ## ")
+            out[i] = _real_rounds(im, m) + sep + spec
     return out
 
 
@@ -882,6 +974,118 @@ def gen_sx(rng, depth, typed):
         n = rng.choice([2, 2, 2, 3, 3, 4])
         return ("kw", k, [gen_sx(rng, depth - 1, typed) for _ in range(n)])
     return ("amp", k, gen_sx(rng, depth - 1, typed), gen_sx(rng, depth - 1, typed))
+
+
+RN = ["x", "y", "z", "foo"]
+
+
+def gen_named_sx(rng, typed):
+    """spellings whose comparator values hold >= 2 distinct Names, in the shapes that end up as ONE list-valued
+    comparator: `a == x or a == y` (-> Any), `a != x and a != y` (-> NotAny), `k == x and k == y` (-> All),
+    `a in any([x, y])`, tuple-valued and nested-list values, ranges and `a > x and a < y` (-> InRange)"""
+    def nm():
+        return ("D", [rng.choice(RN)])
+
+    def names2(n):
+        pool = rng.sample(RN, min(n, len(RN)))
+        return [("D", [p]) for p in pool]
+
+    def const(kind):
+        return gen_typed_sv(rng, kind, False)
+    idx = rng.choice(["a", "b", "k"] if typed else ["a", "b", "k", "t", "x.y"])
+    kind = KIND[idx]
+    d = idx.split(".")
+    r = rng.random()
+    n = rng.choice([2, 2, 3, 4])
+    if r < 0.2:
+        vals = names2(n) + ([const(kind)] if rng.random() < 0.4 else [])
+        rng.shuffle(vals)
+        core = ("kw", "or", [("cmp", "eq", d, v) for v in vals])
+    elif r < 0.35:
+        vals = names2(n) + ([const(kind)] if rng.random() < 0.4 else [])
+        core = ("kw", "and", [("cmp", "noteq", d, v) for v in vals])
+    elif r < 0.45:
+        core = ("kw", rng.choice(["and", "or"]), [("cmp", rng.choice(["eq", "noteq"]), d, v) for v in names2(n)])
+    elif r < 0.75:
+        vals = names2(n) + [const(kind) for _ in range(rng.choice([0, 0, 1]))]
+        rng.shuffle(vals)
+        q = rng.random()
+        if q < 0.2:                       # nested list / tuple members
+            vals[0] = (rng.choice("LT"), [vals[0], nm(), const(kind)])
+        elif q < 0.3:
+            vals.append(("L", [("T", [nm(), ("L", [nm()])])]))
+        c = rng.choice(["any", "notany"] if kind == "field" and typed else ["any", "notany", "all", "notall"])
+        core = ("cmp", c, d, (rng.choice("LT"), vals))
+    elif r < 0.85:
+        x, y = names2(2)
+        if rng.random() < 0.5:
+            core = ("range", d, x, y, rng.random() < 0.5, rng.random() < 0.5)
+        else:
+            core = ("kw", "and", [("cmp", rng.choice(["gt", "ge"]), d, x), ("cmp", rng.choice(["lt", "le"]), d, y)])
+    else:
+        x, y = names2(2)
+        core = ("range", d, ("T", [x, const(kind)]), ("T", [y, ("L", [nm()])]), False, True) if not typed else \
+            ("cmp", "eq", d, x)
+    q = rng.random()
+    if q < 0.25:
+        return ("kw", rng.choice(["and", "or"]), [gen_leaf(rng, typed), core] if core[0] != "kw" or rng.random() < 0.5
+                else [core, gen_leaf(rng, typed)])
+    if q < 0.35:
+        return ("not", core)
+    if q < 0.45:
+        return ("amp", rng.choice(["and", "or"]), core, gen_named_sx(rng, typed) if rng.random() < 0.3 else gen_leaf(rng, typed))
+    return core
+
+
+def sx_has_name(s):
+    if isinstance(s, tuple):
+        if s and s[0] == "D" and len(s) == 2 and isinstance(s[1], list) and s[1] and s[1][0] in RN:
+            return True
+        return any(sx_has_name(x) for x in s[1:])
+    if isinstance(s, list):
+        return any(sx_has_name(x) for x in s)
+    return False
+
+
+def gen_rounds(rng, typed, spy):
+    """2-3 DIFFERENT names mappings; for the real catalog every name is bound (And/Or evaluate lazily)"""
+    r = rng.choice([2, 2, 3])
+    out = [r]
+    used = []
+    for _ in range(r):
+        for _ in range(20):
+            seedv = [rng.randrange(10) for _ in RN]
+            if seedv not in used:
+                break
+        used.append(seedv)
+        d = []
+        for n, v in zip(RN, seedv):
+            if spy and rng.random() < 0.12:
+                continue                        # unbound in this execution only
+            if typed:
+                val = [ctok(rng.choice([v, v, "k%d" % (v % 6), WORDS[v % len(WORDS)]]))]
+            else:
+                val = [ctok(v)] if rng.random() < 0.6 else gen_wval(rng, 1)
+            d.append((n, val))
+        d.append(("lst", ["L", 2, ctok(seedv[0]), ctok(seedv[1])]))
+        d.append(("tup", ["T", 2, ctok("k%d" % (seedv[2] % 6)), ctok("k%d" % (seedv[3] % 6))]))
+        if spy and rng.random() < 0.03:
+            out += ["nonames"]
+            continue
+        out += [len(d)]
+        for n, v in d:
+            out += [hx(n)] + v
+    return out
+
+
+def rerun_cmds(rng, src, typed):
+    cmds = []
+    for opt in (0, 1):
+        if rng.random() < 0.85:
+            cmds.append(["rerun", "spy", opt] + gen_rounds(rng, typed, True) + [hx(src)])
+        if typed and rng.random() < 0.7:
+            cmds.append(["rerun", "real", opt] + gen_rounds(rng, True, False) + [hx(src)])
+    return cmds
 
 
 def w_of_const(v):
@@ -1133,6 +1337,14 @@ def gen(rng, tier, idx):
     if typed:
         cmds.append(["run"] + gen_names(rng, True, drop=0.0, nonames=0.0) + [hx(src)])      # every name bound: And/Or evaluate
         # lazily, so with an unbound name the whole-query outcome depends on the documents (exec covers NameError)
+    known = not ("zz" in src or "a.b" in src or "b.q" in src)
+    if known and rng.random() < 0.35 and sx_has_name(s):
+        cmds += rerun_cmds(rng, src, typed)[:2]
+    if rng.random() < 0.6:
+        # a retained query object executed again with other names
+        t2 = rng.random() < 0.5
+        s2 = gen_named_sx(rng, t2)
+        cmds += rerun_cmds(rng, spell(s2, random.Random(rng.randrange(1 << 30))), t2)
     for _ in range(rng.choice([2, 3, 4])):
         m = mutate(rng, src)
         if m:
@@ -1157,7 +1369,7 @@ def classify(case, i, impl, model, spec):
     if c[0] == "parse" and spec == "reject" and model.startswith("ok"):
         if impl == model or impl.startswith("err "):
             return "D11"
-    if c[0] in ("exec", "run") and spec == "reject" and not model.startswith("err "):
+    if c[0] in ("exec", "run", "rerun") and spec == "reject" and not model.startswith("err "):
         return "D11"        # the parsed object is not a query tree over values; `parse` on the same text compares it
     return None
 
@@ -1174,6 +1386,12 @@ def witnesses():
                                              ["exec"] + nm + [hx("[x] < b < 5")],
                                              ["exec", 1, hx("x"), "i:1", hx("(x, [y]) <= a <= 2")],
                                              ["run"] + nm + [hx("(x, 1) <= a <= (y, 2)")]])))
+    two = [2, 2, hx("x"), "i:1", hx("y"), "i:2", 2, hx("x"), "i:7", hx("y"), "i:9"]
+    for src in ["a in any([x, y])", "a == x or a == y", "a != x and a != y", "k == x and k == y",
+                "a in any((x, [y, 1]))", "not (a == x or a == y)", "(x, [y]) <= a <= (y, 2)", "a > x and a < y"]:
+        out.append(("regression-retained-object", make_case(
+            [["rerun", "spy", 0] + two + [hx(src)], ["rerun", "spy", 1] + two + [hx(src)],
+             ["rerun", "real", 0] + two + [hx(src)], ["rerun", "real", 1] + two + [hx(src)]])))
     return out
 
 
@@ -1226,6 +1444,19 @@ def features(case, outs):
                                 else "all-bound"))
         elif op == "run":
             f.append("run:" + (o if o.startswith("err") else "empty" if o == "{}" else "ids"))
+        elif op == "rerun":
+            tag = "rerun-%s-opt%s:" % (c[1], c[2])
+            if " || " not in o:
+                f.append(tag + (o if len(o) < 24 else o[:24]))
+            else:
+                body, tail = o.split(" || ", 1)
+                rounds = body.split(" | ")
+                f.append(tag + ("rounds-differ" if len(set(rounds)) > 1 else "rounds-equal"))
+                f.append(tag + tail.split(" ")[0])
+                if c[1] == "spy" and any((" L " in r or " T " in r) for r in rounds):
+                    f.append(tag + "list-or-tuple-value")
+                if "err NameError" in body:
+                    f.append(tag + "nameerror-in-some-round")
         elif op == "qeq":
             f.append("qeq:" + o)
         elif op == "subst":
@@ -1394,7 +1625,10 @@ RULE = ("each case = one generated spelling s (12 comparators, ranges, and/or/no
         "type-appropriate for a real catalog) printed with random parenthesisation/white space/literal styles; "
         "commands: toast (real ast.parse vs Lean toAst), tree (hand-built vs Sx.tree), rt (parse_query vs hand-built "
         "by the harness' renderer and by hypatia's ==), parse, exec with random names on spy indexes, run on a real "
-        "catalog, 2-4 token-level mutations (delete/duplicate/swap/replace/insert) of the string through the real "
+        "catalog, rerun (ONE parsed object - default optimisation and optimize_query=False - executed 2-3 times with "
+        "different names on spy indexes and the real catalog; 60% of the cases add a spelling with >= 2 distinct Names in "
+        "one comparator: a == x or a == y, a != x and a != y, any/all of lists/tuples/nested lists, ranges), "
+        "2-4 token-level mutations (delete/duplicate/swap/replace/insert) of the string through the real "
         "ast.parse and both walks, 2 qeq pairs (tree vs perturbed copy incl. Python-equal constants of other types), "
         "1 subst; extra: the 16 spellings documented in the class docstrings parse to the documenting class; every "
         "string of <= 4 (thorough 5) tokens over a 15 (18) token alphabet; non-trivial = the case has an accepted "
